@@ -146,6 +146,39 @@ def ob_insert_point(k, mode, rmode, timeout):
     )
 
 
+def ob_insert_forms(timeout):
+    """entries given as plain tuples / lists, times given as ints, default arguments"""
+    names = ["nt", "t0", "hi"]
+
+    def pre(nt, t0, hi):
+        return within(0.0, 1024.0, nt, t0, hi) & (t0 <= hi) & sep(nt, t0, hi)
+
+    def body(nt, t0, hi):
+        for form in ("tuple", "list"):
+            tier = PointTier("p", [Point(t0, "x")], 0.0, hi)
+            e = (nt, "n") if form == "tuple" else [nt, "n"]
+            try:
+                tier.insertEntry(e)  # defaults: collisionMode='error', reporting 'warning'
+            except errors.CollisionError:
+                if nt != t0:
+                    return "default collision mode raised without a collision"
+                continue
+            if nt == t0:
+                return "default collision mode must be 'error'"
+            if tuples(tier.entries) != sorted([(t0, "x"), (nt, "n")]):
+                return "entries (%s form)" % form
+            if not all(isinstance(x, Point) for x in tier.entries):
+                return "entries are not Points after inserting a %s" % form
+        it = IntervalTier("t", [Interval(0.0, 1.0, "x")], 0.0, 2048.0)
+        it.insertEntry([1, 2, "n"])
+        it.insertEntry((3, 4, "m"), "replace", "silence")
+        if tuples(it.entries) != [(0.0, 1.0, "x"), (1, 2, "n"), (3, 4, "m")] or not all(isinstance(x, Interval) for x in it.entries):
+            return "interval entries given as list/tuple with int times"
+        return True
+
+    return Ob("insert-entry-forms", F(*names), body, pre, fmode="real", timeout=timeout, setup=_setup, funcs=[FUNCS[0], FUNCS[2]], bounds="point given as tuple and as list, default arguments; intervals as list/tuple with int times")
+
+
 def ob_point_nocollision_ieee(timeout):
     """binary64: two different time points never collide (no tolerance in the collision test)."""
 
@@ -260,6 +293,7 @@ def obligations(tier):
         obs.append(ob_insert_interval(1, "replace", "silence", 120, as_tuple=True))
         obs.append(ob_insert_point(1, "merge", "warning", 60))
         obs.append(ob_point_nocollision_ieee(120))
+        obs.append(ob_insert_forms(120))
         obs.append(ob_delete_interval(2, 120))
         obs.append(ob_delete_point(2, 120))
         obs.append(ob_insert_then_delete(1, 120))
@@ -271,6 +305,7 @@ def obligations(tier):
                     obs.append(ob_insert_point(k, mode, rm, 900))
         obs.append(ob_insert_interval(2, "replace", "silence", 900, as_tuple=True))
         obs.append(ob_point_nocollision_ieee(900))
+        obs.append(ob_insert_forms(600))
         for k in (1, 2, 3):
             obs.append(ob_delete_interval(k, 900))
             obs.append(ob_delete_point(k, 900))
